@@ -29,6 +29,7 @@ const char* g_prop = "C18";
 
 struct Registry { // only touched inside xrt::Quiet sections
   std::unordered_map<const void*, int> prot; // node -> number of model guards (over all holder threads) protecting it
+  std::unordered_map<const void*, int> prot_acq; // ... of those: guards that acquired the node themselves (not copies of a guard)
   std::string kind, msg;
   uint64_t created = 0, destroyed = 0;
   void err(const char* k, const std::string& m) {
@@ -39,6 +40,7 @@ struct Registry { // only touched inside xrt::Quiet sections
   }
   void clear() {
     prot.clear();
+    prot_acq.clear();
     kind.clear();
     msg.clear();
   }
@@ -47,19 +49,26 @@ Registry& reg() {
   static Registry* r = new Registry();
   return *r;
 }
-void prot_add(const void* n) {
+void prot_add(const void* n, bool by_copy) {
   if (n == nullptr)
     return;
   xrt::Quiet q;
   ++reg().prot[n];
+  if (!by_copy)
+    ++reg().prot_acq[n];
 }
-void prot_del(const void* n) {
+void prot_del(const void* n, bool by_copy) {
   if (n == nullptr)
     return;
   xrt::Quiet q;
   auto it = reg().prot.find(n);
   if (it != reg().prot.end() && --it->second <= 0)
     reg().prot.erase(it);
+  if (!by_copy) {
+    auto ia = reg().prot_acq.find(n);
+    if (ia != reg().prot_acq.end() && --ia->second <= 0)
+      reg().prot_acq.erase(ia);
+  }
 }
 
 template <class R>
@@ -75,8 +84,13 @@ struct Node : R::template enable_concurrent_ptr<Node<R>> {
     xrt::Quiet q;
     ++reg().destroyed;
     auto it = reg().prot.find(this);
-    if (it != reg().prot.end() && it->second > 0)
-      reg().err("destroyed-while-guarded", fmt("node %" PRId64 " was destroyed while %d guard_ptr(s) protect it", id, it->second));
+    if (it != reg().prot.end() && it->second > 0) {
+      auto ia = reg().prot_acq.find(this);
+      int acq = ia == reg().prot_acq.end() ? 0 : ia->second;
+      // "-by-copy": every protecting guard got its protection by copying another guard_ptr whose own protection has ended
+      reg().err(acq > 0 ? "destroyed-while-guarded" : "destroyed-while-guarded-by-copy",
+                fmt("node %" PRId64 " was destroyed while %d guard_ptr(s) protect it (%d of them acquired it themselves)", id, it->second, acq));
+    }
   }
 };
 
@@ -125,6 +139,7 @@ struct Env {
     alignas(GPtr) unsigned char store[MAXG][sizeof(GPtr)];
     bool live[MAXG] = {};
     N* m[MAXG] = {}; // model: what guard k protects
+    bool mc[MAXG] = {}; // ... and whether that protection was established by copying another guard
     std::string trace; // last operations (for the message)
     uint64_t throws = 0, ops = 0, full_states = 0, over_k_states = 0;
     bool failed = false;
@@ -146,12 +161,25 @@ struct Env {
       reg().err(kind, what + " | thread " + std::to_string(tid) + " K=" + std::to_string(K) + (Dynamic ? " dynamic" : " static") +
                         " last ops: " + trace);
     }
-    void set_model(int k, N* n) {
-      if (m[k] == n)
+    void set_model(int k, N* n, bool by_copy = false) {
+      if (m[k] == n && (n == nullptr || mc[k] == by_copy))
         return;
-      prot_del(m[k]);
+      prot_del(m[k], mc[k]);
       m[k] = n;
-      prot_add(n);
+      mc[k] = by_copy && n != nullptr;
+      prot_add(n, mc[k]);
+    }
+    // the slot (and with it the protection) travels from guard j to guard i
+    void move_model(int i, int j) {
+      N* src = m[j];
+      bool c = mc[j];
+      prot_add(src, c);
+      prot_del(m[i], mc[i]);
+      m[i] = src;
+      mc[i] = c && src != nullptr;
+      prot_del(m[j], mc[j]);
+      m[j] = nullptr;
+      mc[j] = false;
     }
     void init() {
       for (int k = 0; k < G; ++k) {
@@ -162,8 +190,9 @@ struct Env {
     }
     void fini() {
       for (int k = 0; k < G; ++k) {
-        prot_del(m[k]);
+        prot_del(m[k], mc[k]);
         m[k] = nullptr;
+        mc[k] = false;
         if (live[k])
           g(k).~GPtr();
         live[k] = false;
@@ -171,8 +200,9 @@ struct Env {
     }
     void reset_all() {
       for (int k = 0; k < G; ++k) {
-        prot_del(m[k]);
+        prot_del(m[k], mc[k]);
         m[k] = nullptr;
+        mc[k] = false;
         g(k).reset();
       }
     }
@@ -331,7 +361,7 @@ struct Env {
             set_model(i, old);
           break;
         }
-        set_model(i, src);
+        set_model(i, src, true);
         check_value(in, i, src);
         check_value(in, j, src);
         expect_throw_if_full(in, i, old == nullptr && src != nullptr, threw);
@@ -344,10 +374,7 @@ struct Env {
         set_model(i, nullptr);
         attempt(in, i, false, [&] { g(i) = std::move(g(j)); });
         // the slot travels with the pointer: protected throughout
-        prot_add(src);
-        m[i] = src;
-        prot_del(m[j]);
-        m[j] = nullptr;
+        move_model(i, j);
         check_value(in, i, src);
         check_value(in, j, nullptr);
         break;
@@ -360,6 +387,7 @@ struct Env {
         attempt(in, i, false, [&] { g(i).swap(g(j)); }, a);
         m[i] = b;
         m[j] = a;
+        std::swap(mc[i], mc[j]);
         check_value(in, i, b);
         check_value(in, j, a);
         break;
@@ -387,7 +415,7 @@ struct Env {
           break;
         }
         live[i] = true;
-        set_model(i, src);
+        set_model(i, src, true);
         check_value(in, i, src);
         check_value(in, j, src);
         expect_throw_if_full(in, i, src != nullptr, threw);
@@ -402,10 +430,7 @@ struct Env {
         live[i] = false;
         attempt(in, i, true, [&] { ::new (store[i]) GPtr(std::move(g(j))); });
         live[i] = true;
-        prot_add(src);
-        m[i] = src;
-        prot_del(m[j]);
-        m[j] = nullptr;
+        move_model(i, j);
         check_value(in, i, src);
         check_value(in, j, nullptr);
         break;
@@ -603,6 +628,14 @@ struct Env {
     out.history = desc;
     out.hist_hash = mix64(std::hash<std::string>{}(desc), throws);
     out.nontrivial = ops > 4;
+    {
+      // the registry's verdict at destruction time is the more specific witness; a heap / race report of the runtime follows it
+      xrt::Quiet q;
+      if (reg().kind.rfind("destroyed-while-guarded", 0) == 0) {
+        out.fail(g_prop, reg().kind.c_str(), reg().msg);
+        return;
+      }
+    }
     if (xrt::has_violation())
       return;
     xrt::Quiet q;
